@@ -106,7 +106,8 @@ func callSSA(i *interpreter, caller *frame, callpos token.Pos, fn *ssa.Function,
 	if caller != nil {
 		fr.g = caller.g
 	}
-	name := fn.String()
+	info := i.shared.info(fn)
+	name := info.name
 	if traceCalls && !i.initMode {
 		fmt.Fprintf(os.Stderr, "%*s-> %s\n", i.depth, "", name)
 	}
@@ -135,9 +136,11 @@ func callSSA(i *interpreter, caller *frame, callpos token.Pos, fn *ssa.Function,
 	if fn.TypeParams().Len() > 0 && len(fn.TypeArgs()) == 0 {
 		i.ex.unsupported("uninstantiated generic function %s", name)
 	}
-	if fn.Pkg == i.shared.main || (fn.Origin() != nil && fn.Origin().Pkg == i.shared.main) || (fn.Parent() != nil && i.shared.inMain(fn)) {
-		i.ex.funcs[name] = true
-		i.shared.fnSeen.LoadOrStore(name, fn)
+	if info.inMain {
+		if !i.ex.funcs[name] {
+			i.ex.funcs[name] = true
+			i.shared.fnSeen.LoadOrStore(name, fn)
+		}
 	}
 	if i.depth++; i.depth > 400 {
 		i.ex.abort(EndBudget, "call depth exceeded")
@@ -161,6 +164,21 @@ func callSSA(i *interpreter, caller *frame, callpos token.Pos, fn *ssa.Function,
 		runFrame(fr)
 	}
 	return fr.result
+}
+
+type fnInfo struct {
+	name   string
+	inMain bool
+}
+
+func (sh *Shared) info(fn *ssa.Function) *fnInfo {
+	if v, ok := sh.fnInfos.Load(fn); ok {
+		return v.(*fnInfo)
+	}
+	inf := &fnInfo{name: fn.String()}
+	inf.inMain = fn.Pkg == sh.main || (fn.Origin() != nil && fn.Origin().Pkg == sh.main) || (fn.Parent() != nil && sh.inMain(fn))
+	sh.fnInfos.Store(fn, inf)
+	return inf
 }
 
 func (sh *Shared) inMain(fn *ssa.Function) bool {
@@ -288,6 +306,7 @@ type Shared struct {
 	initOnce      sync.Once
 	Warnings      []string
 	fnSeen        sync.Map
+	fnInfos       sync.Map
 	Thorough      bool
 }
 
